@@ -178,6 +178,18 @@ pub open spec fn operands(n: Node) -> Seq<AST> {
         _ => match boolean_rule(n) { Some(s) => s, None => match binary_rule(n) { Some((_, l, r)) => seq![l, r], None => seq![] } },
     }
 }
+/// the expressions interpolated into a string literal
+pub open spec fn interpolated(n: Node) -> Seq<AST> {
+    match n { Node::Str { expressions, .. } => expressions@, _ => seq![] }
+}
+/// `isa` / `isnta` name a class by an identifier
+pub open spec fn isa_names_identifier(n: Node) -> bool {
+    match n {
+        Node::IsA { right, .. } => right.node is Id,
+        Node::IsNA { right, .. } => right.node is Id,
+        _ => true,
+    }
+}
 /// from / to / step of a range or slice
 pub open spec fn bounds_of(n: Node) -> Option<(AST, AST, Option<AST>)> {
     match n {
@@ -240,13 +252,18 @@ pub open spec fn bounds_are_int(b: ConstrBuilder, n: Node, env: Environment) -> 
 //@@> for expr in xit: expressions
 //@@ LOOPINV
 //@@< for expr in expressions
-//@@> invariant mono(*old(constr), *constr), grows(*old(constr), *constr), forall|i: int| 0 <= i < expressions@.len() ==> seen(*constr, #[trigger] expressions@[i], *env),
+//@@> invariant mono(*old(constr), *constr), grows(*old(constr), *constr),
+//@@ INVCLAIM
+//@@< for expr in expressions
+//@@> forall|i: int| 0 <= i < expressions@.len() ==> seen(*constr, #[trigger] expressions@[i], *env), //# loop_interpolated_expressions_were_checked_before_their_stringy_constraints [C05,C06,C09]
     ensures
         mono(*old(constr), *final(constr)), grows(*old(constr), *final(constr)),   //# nothing_is_forgotten [C05]
         (r is Ok && binary_rule(ast.node) is Some) ==> typed_by_method(*final(constr), *ast, binary_rule(ast.node)->Some_0.0, binary_rule(ast.node)->Some_0.1, seq![binary_rule(ast.node)->Some_0.1, binary_rule(ast.node)->Some_0.2]), //# binary_operator_is_typed_as_the_operator_method_of_its_receiver [C05,C06]
         (r is Ok && binary_rule(ast.node) is Some) ==> (exists|e: Environment| seen(*final(constr), binary_rule(ast.node)->Some_0.1, e)) && (exists|e: Environment| seen(*final(constr), binary_rule(ast.node)->Some_0.2, e)), //# binary_operator_checks_both_operands [C05,C06]
         (r is Ok && literal_rule(ast.node) is Some) ==> typed_as(*final(constr), *ast, literal_rule(ast.node)->Some_0), //# literal_is_typed_as_its_class [C05,C06]
         r is Ok ==> bounds_are_int(*final(constr), ast.node, *env),                //# range_and_slice_bounds_must_be_int [C05,C06]
+        r is Ok ==> forall|i: int| 0 <= i < interpolated(ast.node).len() ==> seen(*final(constr), #[trigger] interpolated(ast.node)[i], *env), //# every_interpolated_expression_of_a_string_is_checked [C05,C06,C09]
+        r is Ok ==> isa_names_identifier(ast.node),                                //# isa_needs_a_class_identifier [C05]
         (r is Ok && boolean_rule(ast.node) is Some) ==> typed_as(*final(constr), *ast, "Bool"@), //# logical_operator_is_typed_bool [C05]
         (r is Ok && ast.node is SubU) ==> typed_by_method(*final(constr), *ast, "__neg__"@, operands(ast.node)[0], seq![operands(ast.node)[0]]), //# unary_minus_is_typed_as_neg_of_its_operand [C05,C06]
         (r is Ok && ast.node is AddU) ==> has(*final(constr), exp_of(*ast), exp_of(operands(ast.node)[0])), //# unary_plus_is_typed_as_its_operand [C05,C06]
